@@ -165,6 +165,8 @@ struct job
   void **rad;
   int *rasz;
   int failmap;                  /* fail the k-th seam request */
+  unsigned long gcount;         /* gensalt count */
+  int gsize;                    /* gensalt output size (0: CRYPT_GENSALT_OUTPUT_SIZE) */
   char res[CRYPT_OUTPUT_SIZE];
   int isnull, err;
 };
@@ -185,10 +187,10 @@ runner (void *arg)
     case 0: r = crypt_rn (j->phrase, j->setting, j->d, sizeof *j->d); break;
     case 1: r = crypt_r (j->phrase, j->setting, j->d); break;
     case 2: r = crypt_ra (j->phrase, j->setting, j->rad, j->rasz); break;
-    case 3: r = crypt_gensalt_rn (j->setting, 0, 0, 0, out, sizeof out); break;
-    case 4: r = crypt_gensalt (j->setting, 0, 0, 0); break;
+    case 3: r = crypt_gensalt_rn (j->setting, j->gcount, 0, 0, out, j->gsize ? j->gsize : (int) sizeof out); break;
+    case 4: r = crypt_gensalt (j->setting, j->gcount, 0, 0); break;
     default:
-      r = crypt_gensalt_ra (j->setting, 0, 0, 0);
+      r = crypt_gensalt_ra (j->setting, j->gcount, 0, 0);
       break;
     }
   j->err = errno;
@@ -328,7 +330,7 @@ one_case (int m, int kind, int pli, int ep)
     }
   ra_watch = rad;
   ra_watch_size = kind == K_SMALL_RA ? rasz : 0;
-  struct job j = { ep, phrase, setting, D, &rad, &rasz, kind == K_MAPFAIL ? (ep == 2 ? 1 : 1) : 0, "", 0, 0 };
+  struct job j = { ep, phrase, setting, D, &rad, &rasz, kind == K_MAPFAIL ? (ep == 2 ? 1 : 1) : 0, 0, 0, "", 0, 0 };
   wset_phrase ((const unsigned char *) phrase, pl);
   run_on_stack (&j);
   vh_stat ("evaluations", 1);
@@ -402,11 +404,14 @@ one_case (int m, int kind, int pli, int ep)
 }
 
 /* crypt_gensalt* with rbytes == NULL: the bytes drawn from the OS source do not survive */
+/* variant 0: default request (succeeds); 1: count the generator rejects; 2: output buffer too small for the method */
 static void
-entropy_case (int m, int ep)
+entropy_case (int m, int ep, int variant)
 {
   char sig[200];
-  struct job j = { ep, 0, vh_methods[m].tag, D, 0, 0, 0, "", 0, 0 };
+  struct job j = { ep, 0, vh_methods[m].tag, D, 0, 0, 0, variant == 1 ? 99 : 0, variant == 2 ? 5 : 0, "", 0, 0 };
+  if (variant == 2 && ep != 3)
+    return;
   vh_ent_counter = 4242 + (uint64_t) m;
   unsigned char expect[64];
   int n = vh_methods[m].conf_nrbytes;
@@ -420,9 +425,10 @@ entropy_case (int m, int ep)
   vh_stat ("entropy_cases", 1);
   size_t w;
   int enc;
-  snprintf (cj, sizeof cj, "{\"method\":\"%s\",\"entry\":\"%s\",\"prefix\":%s,\"replay\":\"e:%d:%d\"", vh_methods[m].name, epname[ep], vh_jstr (vh_methods[m].tag), m, ep);
+  snprintf (cj, sizeof cj, "{\"method\":\"%s\",\"entry\":\"%s\",\"prefix\":%s,\"request\":\"%s\",\"replay\":\"e:%d:%d:%d\"", vh_methods[m].name, epname[ep],
+            vh_jstr (vh_methods[m].tag), variant == 0 ? "default" : variant == 1 ? "count 99 (rejected)" : "output_size 5 (too small)", m, ep, variant);
   const char *why = 0;
-  if (j.isnull && m != M_BCRYPT_X)
+  if (j.isnull && m != M_BCRYPT_X && variant == 0)
     why = "auto-entropy gensalt failed";
   else if (rel_found >= 0)
     why = "drawn random bytes in a heap block at release time";
@@ -549,8 +555,8 @@ main (int argc, char **argv)
   if (vh_replay && *vh_replay)
     {
       int a, b, c, d;
-      if (sscanf (vh_replay, "e:%d:%d", &a, &b) == 2)
-        entropy_case (a, b);
+      if (sscanf (vh_replay, "e:%d:%d:%d", &a, &b, &c) == 3)
+        entropy_case (a, b, c);
       else if (sscanf (vh_replay, "%d:%d:%d:%d", &a, &b, &c, &d) == 4)
         one_case (a, b, c, d);
       else if (vh_replay[0] == 'p')
@@ -567,8 +573,9 @@ main (int argc, char **argv)
     histories ();
   for (int m = 0; m < M_COUNT; m++)
     for (int ep = 3; ep <= 5; ep++)
-      if (vh_mine (idx++))
-        entropy_case (m, ep);
+      for (int variant = 0; variant < 3; variant++)
+        if (vh_mine (idx++))
+          entropy_case (m, ep, variant);
   for (int m = 0; m < M_COUNT && !vh_expired (); m++)
     for (int kind = 0; kind < NKIND; kind++)
       for (unsigned pli = 0; pli < sizeof plens / sizeof *plens; pli++)
